@@ -55,11 +55,27 @@ fn observe<R: Read>(ctor: impl FnOnce() -> std::io::Result<R>, sizes: &[usize], 
             let (out, err) = drive(&mut rd, sizes);
             match err {
                 None => format!("END {} {}", hex(&out), unconsumed(rd)),
-                Some(c) => format!("ERR{} {}", c, hex(&out)),
+                Some(c) => {
+                    // reading on after an error must stay total as well (checked by the oracle)
+                    let mut buf = [0u8; 64];
+                    let again = std::panic::catch_unwind(std::panic::AssertUnwindSafe(|| {
+                        for _ in 0..4 {
+                            let _ = rd.read(&mut buf);
+                        }
+                    }));
+                    if again.is_err() {
+                        READ_AFTER_ERROR_PANIC.with(|f| f.set(true));
+                    }
+                    format!("ERR{} {}", c, hex(&out))
+                }
             }
         }
     }));
     r.unwrap_or_else(|_| "PANIC".to_string())
+}
+
+thread_local! {
+    static READ_AFTER_ERROR_PANIC: std::cell::Cell<bool> = const { std::cell::Cell::new(false) };
 }
 
 fn cursor_left(c: &Cursor<Vec<u8>>) -> usize {
@@ -108,6 +124,9 @@ pub fn exec(a: &[&str]) -> (String, String) {
 }
 
 fn oracle_no_panic(obs: &str) -> String {
+    if READ_AFTER_ERROR_PANIC.with(|f| f.replace(false)) {
+        return "FAIL read() after an error panics".into();
+    }
     if obs.starts_with("PANIC") { "FAIL decoder panicked".into() } else if obs.starts_with("ERR99") { "FAIL decoder does not terminate".into() } else if obs.starts_with("ERR98") { "FAIL endless output".into() } else { "ok".into() }
 }
 
